@@ -24,11 +24,11 @@ Proof.
         change (256 ^ N.of_nat 3) with 16777216; lia.
 Qed.
 
-Lemma ext_get_quick_firstn z z' w : (w = 1 \/ w = 2 \/ w = 3)%nat ->
-  firstn w z = firstn w z' -> ext_get_quick z w = ext_get_quick z' w.
+Lemma dict_ext_get_quick_firstn z z' w : (w = 1 \/ w = 2 \/ w = 3)%nat ->
+  firstn w z = firstn w z' -> dict_ext_get_quick z w = dict_ext_get_quick z' w.
 Proof.
   intros Hw H. pose proof (firstn_eq_nth z z' w 0 H) as E.
-  destruct Hw as [-> | [-> | ->]]; unfold ext_get_quick, byte_at.
+  destruct Hw as [-> | [-> | ->]]; unfold dict_ext_get_quick, byte_at.
   - apply E. lia.
   - rewrite (E 0%nat), (E 1%nat) by lia. reflexivity.
   - rewrite (E 0%nat), (E 1%nat), (E 2%nat) by lia. reflexivity.
@@ -41,7 +41,7 @@ Lemma dict_decode_indices_len fuel : forall a ds w z i count out ok,
 Proof.
   induction fuel as [|f IH]; intros a ds w z i count out ok H; [discriminate|].
   cbn [dict_decode_indices] in H. destruct (i <? count) eqn:E.
-  - destruct (ds <=? ext_get_quick z w); [inversion H; subst; cbn; lia|].
+  - destruct (ds <=? dict_ext_get_quick z w); [inversion H; subst; cbn; lia|].
     destruct (dict_decode_indices f a ds w (skipn w z) (i + 1) count) as [[l o]|] eqn:R; [|discriminate].
     inversion H; subst. apply IH in R. cbn [length]. lia.
   - inversion H; subst. cbn. lia.
@@ -52,7 +52,7 @@ Lemma dict_decode_indices_fuel fuel : forall a ds w z i count,
 Proof.
   induction fuel as [|f IH]; intros a ds w z i count H; [lia|].
   cbn [dict_decode_indices]. destruct (i <? count) eqn:E; [|discriminate].
-  destruct (ds <=? ext_get_quick z w); [discriminate|].
+  destruct (ds <=? dict_ext_get_quick z w); [discriminate|].
   specialize (IH a ds w (skipn w z) (i + 1) count ltac:(lia)).
   destruct (dict_decode_indices f a ds w (skipn w z) (i + 1) count) as [[l o]|]; [discriminate|congruence].
 Qed.
@@ -65,8 +65,8 @@ Proof.
   cbn [dict_decode_indices]. destruct (i <? count) eqn:E; [|reflexivity].
   assert (H1 : firstn w z = firstn w z').
   { apply (firstn_firstn_le z z' w (N.to_nat (count - i) * w)); [nia|exact H]. }
-  rewrite (ext_get_quick_firstn z z' w Hw H1).
-  destruct (ds <=? ext_get_quick z' w); [reflexivity|].
+  rewrite (dict_ext_get_quick_firstn z z' w Hw H1).
+  destruct (ds <=? dict_ext_get_quick z' w); [reflexivity|].
   rewrite (IH a ds w (skipn w z) (skipn w z') (i + 1) count Hw); [reflexivity|].
   replace (N.to_nat (count - (i + 1)) * w)%nat with (N.to_nat (count - i) * w - w)%nat by nia.
   apply firstn_skipn_eq. exact H.
@@ -78,9 +78,9 @@ Lemma dict_read_entries_fuel fuel : forall z avail i ds,
 Proof.
   induction fuel as [|f IH]; intros z avail i ds H; [lia|].
   cbn [dict_read_entries]. destruct (i <? ds); [|discriminate].
-  pose proof (tagged_get_width_le z (tagged_avail avail)) as W.
-  pose proof (tagged_avail_to_N avail) as A.
-  set (r := tagged_get z (tagged_avail avail)) in *.
+  pose proof (tagged_get_width_le z (rle_tagged_avail avail)) as W.
+  pose proof (rle_tagged_avail_to_N avail) as A.
+  set (r := tagged_get z (rle_tagged_avail avail)) in *.
   destruct (fst r =? 0) eqn:E; [discriminate|].
   specialize (IH (skipn (N.to_nat (fst r)) z) (avail - fst r) (i + 1) ds ltac:(lia)).
   destruct (dict_read_entries f _ _ _ _) as [[[vs a']|]|]; [discriminate|discriminate|congruence].
@@ -92,9 +92,9 @@ Lemma dict_read_entries_avail fuel : forall z avail i ds vs a',
 Proof.
   induction fuel as [|f IH]; intros z avail i ds vs a' H; [discriminate|].
   cbn [dict_read_entries] in H. destruct (i <? ds).
-  - pose proof (tagged_get_width_le z (tagged_avail avail)) as W.
-    pose proof (tagged_avail_to_N avail) as A.
-    set (r := tagged_get z (tagged_avail avail)) in *.
+  - pose proof (tagged_get_width_le z (rle_tagged_avail avail)) as W.
+    pose proof (rle_tagged_avail_to_N avail) as A.
+    set (r := tagged_get z (rle_tagged_avail avail)) in *.
     destruct (fst r =? 0) eqn:E; [discriminate|].
     destruct (dict_read_entries f _ _ _ _) as [[[vs1 a1]|]|] eqn:R; try discriminate.
     inversion H; subst. apply IH in R. cbn [length]. lia.
@@ -107,8 +107,8 @@ Lemma dict_read_entries_ni fuel : forall z z' avail i ds,
 Proof.
   induction fuel as [|f IH]; intros z z' avail i ds H; [reflexivity|].
   cbn [dict_read_entries]. destruct (i <? ds); [|reflexivity].
-  rewrite (tagged_get_firstn z z' _ _ (tagged_avail_le avail) H).
-  set (r := tagged_get z' (tagged_avail avail)).
+  rewrite (tagged_get_firstn z z' _ _ (rle_tagged_avail_le avail) H).
+  set (r := tagged_get z' (rle_tagged_avail avail)).
   destruct (fst r =? 0); [reflexivity|].
   rewrite (IH (skipn (N.to_nat (fst r)) z) (skipn (N.to_nat (fst r)) z') (avail - fst r) (i + 1) ds); [reflexivity|].
   replace (N.to_nat (avail - fst r)) with (N.to_nat avail - N.to_nat (fst r))%nat by lia.
@@ -120,8 +120,8 @@ Lemma dict_read_header_ni z z' n : firstn (N.to_nat n) z = firstn (N.to_nat n) z
   dict_read_header z n = dict_read_header z' n.
 Proof.
   intro H. unfold dict_read_header. destruct (n =? 0); [reflexivity|].
-  rewrite (tagged_get_firstn z z' _ _ (tagged_avail_le n) H).
-  set (r := tagged_get z' (tagged_avail n)).
+  rewrite (tagged_get_firstn z z' _ _ (rle_tagged_avail_le n) H).
+  set (r := tagged_get z' (rle_tagged_avail n)).
   destruct (fst r =? 0); [reflexivity|].
   destruct (dict_max_size <? snd r); [reflexivity|].
   assert (H1 : firstn (N.to_nat (n - fst r)) (skipn (N.to_nat (fst r)) z)
@@ -135,20 +135,20 @@ Proof.
                = firstn (N.to_nat a2) (skipn (N.to_nat (n - fst r - a2)) (skipn (N.to_nat (fst r)) z'))).
   { replace (N.to_nat a2) with (N.to_nat (n - fst r) - N.to_nat (n - fst r - a2))%nat by lia.
     apply firstn_skipn_eq. exact H1. }
-  rewrite (tagged_get_firstn _ _ _ _ (tagged_avail_le a2) H2). reflexivity.
+  rewrite (tagged_get_firstn _ _ _ _ (rle_tagged_avail_le a2) H2). reflexivity.
 Qed.
 
 Lemma dict_read_header_facts z n :
-  dict_read_header z n <> HFuel /\
-  (forall al, dict_read_header z n = HFail al -> Forall (fun a => a <= 8388608) al) /\
-  (forall vs ds c av al, dict_read_header z n = HOk vs ds c av al ->
+  dict_read_header z n <> DictHFuel /\
+  (forall al, dict_read_header z n = DictHFail al -> Forall (fun a => a <= 8388608) al) /\
+  (forall vs ds c av al, dict_read_header z n = DictHOk vs ds c av al ->
      av <= n /\ ds <= 1048576 /\ al = [8 * ds]).
 Proof.
   unfold dict_read_header. destruct (n =? 0) eqn:E0.
   { split; [discriminate|]. split; [intros al H; inversion H; constructor|discriminate]. }
-  pose proof (tagged_get_width_le z (tagged_avail n)) as W.
-  pose proof (tagged_avail_to_N n) as A.
-  set (r := tagged_get z (tagged_avail n)) in *.
+  pose proof (tagged_get_width_le z (rle_tagged_avail n)) as W.
+  pose proof (rle_tagged_avail_to_N n) as A.
+  set (r := tagged_get z (rle_tagged_avail n)) in *.
   destruct (fst r =? 0) eqn:E1.
   { split; [discriminate|]. split; [intros al H; inversion H; constructor|discriminate]. }
   unfold dict_max_size. destruct (1048576 <? snd r) eqn:E2.
@@ -159,9 +159,9 @@ Proof.
   pose proof (dict_read_entries_fuel (S (N.to_nat n)) (skipn (N.to_nat (fst r)) z) (n - fst r) 0 (snd r) ltac:(lia)) as F.
   destruct (dict_read_entries _ _ _ _ _) as [[[vs a2]|]|] eqn:R; [| |congruence].
   - apply dict_read_entries_avail in R. destruct R as [R _].
-    pose proof (tagged_get_width_le (skipn (N.to_nat (n - fst r - a2)) (skipn (N.to_nat (fst r)) z)) (tagged_avail a2)) as W2.
-    pose proof (tagged_avail_to_N a2) as A2.
-    set (rc := tagged_get _ (tagged_avail a2)) in *.
+    pose proof (tagged_get_width_le (skipn (N.to_nat (n - fst r - a2)) (skipn (N.to_nat (fst r)) z)) (rle_tagged_avail a2)) as W2.
+    pose proof (rle_tagged_avail_to_N a2) as A2.
+    set (rc := tagged_get _ (rle_tagged_avail a2)) in *.
     destruct (fst rc =? 0).
     + split; [discriminate|]. split; [|discriminate].
       intros al [= <-]. constructor; [lia|constructor].
@@ -172,10 +172,10 @@ Proof.
 Qed.
 
 (* ---------------------------------------------------------------- the decoders *)
-Definition dec_allocs (r : dec_res) : list N :=
-  match r with DNull a => a | DFuel => [] | DPartial _ a => a | DOk _ a => a end.
-Definition dec_stores (r : dec_res) : list N :=
-  match r with DPartial s _ => s | DOk s _ => s | _ => [] end.
+Definition dict_dec_allocs (r : dict_dec_res) : list N :=
+  match r with DictNull a => a | DictFuel => [] | DictPartial _ a => a | DictOk _ a => a end.
+Definition dict_dec_stores (r : dict_dec_res) : list N :=
+  match r with DictPartial s _ => s | DictOk s _ => s | _ => [] end.
 
 Lemma div_le_count count avail w : (1 <= w)%nat -> (avail / N.of_nat w <? count) = false -> count * N.of_nat w <= avail.
 Proof. intros Hw H. nia. Qed.
@@ -187,9 +187,9 @@ Lemma to_nat_mul_le c w av : c * N.of_nat w <= av -> (N.to_nat (c - 0) * w <= N.
 Proof. intro H. rewrite N.sub_0_r. nia. Qed.
 
 Theorem dict_decode_safe z n :
-  dict_decode z n <> DFuel /\
-  Forall (fun a => a <= 8388608 + 8 * n) (dec_allocs (dict_decode z n)) /\
-  N.of_nat (length (dec_stores (dict_decode z n))) <= n /\
+  dict_decode z n <> DictFuel /\
+  Forall (fun a => a <= 8388608 + 8 * n) (dict_dec_allocs (dict_decode z n)) /\
+  N.of_nat (length (dict_dec_stores (dict_decode z n))) <= n /\
   (forall z', firstn (N.to_nat n) z = firstn (N.to_nat n) z' -> dict_decode z n = dict_decode z' n).
 Proof.
   destruct (dict_read_header_facts z n) as (F1 & F2 & F3).
@@ -200,27 +200,27 @@ Proof.
     assert (Hw : (1 <= w)%nat) by (destruct (dict_index_width_small ds Hds) as [W|[W|W]]; subst w; lia).
     destruct (av / N.of_nat w <? c) eqn:E; [discriminate|].
     apply div_le_count in E; [|exact Hw].
-    pose proof (dict_decode_indices_fuel (S (N.to_nat n)) (arr_of_list vs) ds w (skipn (N.to_nat (n - av)) z) 0 c) as G.
+    pose proof (dict_decode_indices_fuel (S (N.to_nat n)) (dict_arr_of_list vs) ds w (skipn (N.to_nat (n - av)) z) 0 c) as G.
     destruct (dict_decode_indices _ _ _ _ _ _ _) as [[out [|]]|]; [discriminate|discriminate|exfalso; apply G; [pose proof (mul_le_count c w av Hw E); lia|reflexivity]].
   - unfold dict_decode. destruct (dict_read_header z n) as [al| |vs ds c av al] eqn:Hh.
-    + cbn [dec_allocs]. eapply Forall_impl; [|exact (F2 al eq_refl)]. cbv beta. intros; lia.
+    + cbn [dict_dec_allocs]. eapply Forall_impl; [|exact (F2 al eq_refl)]. cbv beta. intros; lia.
     + constructor.
     + destruct (F3 _ _ _ _ _ eq_refl) as (Hav & Hds & Hal). subst al.
       set (w := dict_index_width ds).
       assert (Hw : (1 <= w)%nat) by (destruct (dict_index_width_small ds Hds) as [W|[W|W]]; subst w; lia).
       destruct (av / N.of_nat w <? c) eqn:E.
-      { cbn [dec_allocs]. constructor; [lia|constructor]. }
+      { cbn [dict_dec_allocs]. constructor; [lia|constructor]. }
       apply div_le_count in E; [|exact Hw].
       assert (A : Forall (fun a => a <= 8388608 + 8 * n) ([8 * ds] ++ [mul64 c 8])).
       { pose proof (mul_le_count c w av Hw E). constructor; [lia|]. constructor; [|constructor]. unfold mul64. lia. }
-      destruct (dict_decode_indices _ _ _ _ _ _ _) as [[out [|]]|]; cbn [dec_allocs]; try exact A. constructor.
+      destruct (dict_decode_indices _ _ _ _ _ _ _) as [[out [|]]|]; cbn [dict_dec_allocs]; try exact A. constructor.
   - unfold dict_decode. destruct (dict_read_header z n) as [al| |vs ds c av al] eqn:Hh; [cbn; lia|cbn; lia|].
     destruct (F3 _ _ _ _ _ eq_refl) as (Hav & Hds & Hal).
     set (w := dict_index_width ds).
     assert (Hw : (1 <= w)%nat) by (destruct (dict_index_width_small ds Hds) as [W|[W|W]]; subst w; lia).
     destruct (av / N.of_nat w <? c) eqn:E; [cbn; lia|].
     apply div_le_count in E; [|exact Hw].
-    destruct (dict_decode_indices _ _ _ _ _ _ _) as [[out [|]]|] eqn:R; cbn [dec_stores length]; try lia.
+    destruct (dict_decode_indices _ _ _ _ _ _ _) as [[out [|]]|] eqn:R; cbn [dict_dec_stores length]; try lia.
     apply dict_decode_indices_len in R. pose proof (mul_le_count c w av Hw E). lia.
   - intros z' H. unfold dict_decode. rewrite <- (dict_read_header_ni z z' n H).
     destruct (dict_read_header z n) as [al| |vs ds c av al] eqn:Hh; [reflexivity|reflexivity|].
@@ -237,9 +237,9 @@ Proof.
 Qed.
 
 Theorem dict_decode_into_safe z n cap :
-  dict_decode_into z n cap <> DFuel /\
-  Forall (fun a => a <= 8388608) (dec_allocs (dict_decode_into z n cap)) /\
-  N.of_nat (length (dec_stores (dict_decode_into z n cap))) <= cap /\
+  dict_decode_into z n cap <> DictFuel /\
+  Forall (fun a => a <= 8388608) (dict_dec_allocs (dict_decode_into z n cap)) /\
+  N.of_nat (length (dict_dec_stores (dict_decode_into z n cap))) <= cap /\
   (forall z', firstn (N.to_nat n) z = firstn (N.to_nat n) z' ->
               dict_decode_into z n cap = dict_decode_into z' n cap).
 Proof.
@@ -253,7 +253,7 @@ Proof.
     assert (Hw : (1 <= w)%nat) by (destruct (dict_index_width_small ds Hds) as [W|[W|W]]; subst w; lia).
     destruct (av / N.of_nat w <? c) eqn:E; [discriminate|].
     apply div_le_count in E; [|exact Hw].
-    pose proof (dict_decode_indices_fuel (S (N.to_nat n)) (arr_of_list vs) ds w (skipn (N.to_nat (n - av)) z) 0 c) as G.
+    pose proof (dict_decode_indices_fuel (S (N.to_nat n)) (dict_arr_of_list vs) ds w (skipn (N.to_nat (n - av)) z) 0 c) as G.
     destruct (dict_decode_indices _ _ _ _ _ _ _) as [[out [|]]|]; [discriminate|discriminate|exfalso; apply G; [pose proof (mul_le_count c w av Hw E); lia|reflexivity]].
   - unfold dict_decode_into. destruct (cap =? 0); [constructor|].
     destruct (dict_read_header z n) as [al| |vs ds c av al] eqn:Hh.
@@ -263,12 +263,12 @@ Proof.
       assert (A : Forall (fun a => a <= 8388608) [8 * ds]) by (constructor; [lia|constructor]).
       destruct (cap <? c); [exact A|].
       destruct (av / N.of_nat (dict_index_width ds) <? c); [exact A|].
-      destruct (dict_decode_indices _ _ _ _ _ _ _) as [[out [|]]|]; cbn [dec_allocs]; try exact A. constructor.
+      destruct (dict_decode_indices _ _ _ _ _ _ _) as [[out [|]]|]; cbn [dict_dec_allocs]; try exact A. constructor.
   - unfold dict_decode_into. destruct (cap =? 0); [cbn; lia|].
     destruct (dict_read_header z n) as [al| |vs ds c av al] eqn:Hh; [cbn; lia|cbn; lia|].
     destruct (cap <? c) eqn:Ec; [cbn; lia|].
     destruct (av / N.of_nat (dict_index_width ds) <? c); [cbn; lia|].
-    destruct (dict_decode_indices _ _ _ _ _ _ _) as [[out [|]]|] eqn:R; cbn [dec_stores length]; try lia;
+    destruct (dict_decode_indices _ _ _ _ _ _ _) as [[out [|]]|] eqn:R; cbn [dict_dec_stores length]; try lia;
       apply dict_decode_indices_len in R; lia.
   - intros z' H. unfold dict_decode_into. destruct (cap =? 0); [reflexivity|].
     rewrite <- (dict_read_header_ni z z' n H).
@@ -285,3 +285,7 @@ Proof.
     replace (N.to_nat av) with (N.to_nat n - N.to_nat (n - av))%nat by lia.
     apply firstn_skipn_eq. exact H.
 Qed.
+
+Theorem dict_decode_into_cap z n cap :
+  N.of_nat (length (dict_dec_stores (dict_decode_into z n cap))) <= cap.
+Proof. apply dict_decode_into_safe. Qed.
